@@ -14,6 +14,7 @@ structure KSt where
   P : Params := Params.production
   plasma : Plasma := {}
   stake : Stake := {}
+  htlc : Htlc := {}
   bals : List (String × Bal) := []       -- per contract
 
 def KSt.bal (s : KSt) (c : String) : Bal := (lookup c s.bals).getD []
@@ -84,6 +85,34 @@ def runStake (s : KSt) (n : Names) (m : Method Stake) (c : Ctx) : KSt × String 
   let r := vmStep m s.stake (s.bal "stake") c
   ({ (s.setBal "stake" r.bal) with stake := r.st, names := n }, showResult n r)
 
+def runHtlc (s : KSt) (n : Names) (m : Method Htlc) (c : Ctx) : KSt × String :=
+  let r := vmStep m s.htlc (s.bal "htlc") c
+  ({ (s.setBal "htlc" r.bal) with htlc := r.st, names := n }, showResult n r)
+
+def hexVal (c : Char) : Option Nat :=
+  if '0' ≤ c ∧ c ≤ '9' then some (c.toNat - '0'.toNat)
+  else if 'a' ≤ c ∧ c ≤ 'f' then some (c.toNat - 'a'.toNat + 10)
+  else none
+
+/-- lower-case hex, "-" = empty -/
+def parseHex (s : String) : Option Bytes :=
+  if s = "-" then some []
+  else
+    let rec go : List Char → Option Bytes
+      | [] => some []
+      | a :: b :: r => do
+        let x ← hexVal a
+        let y ← hexVal b
+        let t ← go r
+        pure (UInt8.ofNat (16 * x + y) :: t)
+      | _ => none
+    go s.toList
+
+def hexDigit (n : Nat) : Char := if n < 10 then Char.ofNat (n + 48) else Char.ofNat (n + 87)
+
+def showHex (b : Bytes) : String :=
+  if b.isEmpty then "-" else String.ofList (b.flatMap fun x => [hexDigit (x.toNat / 16), hexDigit (x.toNat % 16)])
+
 def kCall (s : KSt) (n : Names) (h : Head) (args : List String) : Option (KSt × String) :=
   match h.contract, h.method, args with
   | "plasma", "Fuse", [b] =>
@@ -97,6 +126,21 @@ def kCall (s : KSt) (n : Names) (h : Head) (args : List String) : Option (KSt ×
   | "stake", "Cancel", [id] =>
     let (n, id) := n.hash id
     some (runStake s n (cancelStake id) h.ctx)
+  | "htlc", "Create", [a, e, t, k, l] => do
+    let (n, a) := n.addr a
+    some (runHtlc s n (createHtlc a (← e.toInt?) (← t.toNat?) (← k.toNat?) (← parseHex l)) h.ctx)
+  | "htlc", "Reclaim", [id] =>
+    let (n, id) := n.hash id
+    some (runHtlc s n (reclaimHtlc id) h.ctx)
+  | "htlc", "Unlock", [id, pre, sha3, sha256] => do
+    let (n, id) := n.hash id
+    let sha3 ← parseHex sha3
+    let sha256 ← parseHex sha256
+    -- the digests of this preimage, computed by the real hash functions, instantiate the model's parameter
+    let H : HashFn := fun ty _ => if ty = ZV.Gen.HashTypeSHA3 then sha3 else if ty = ZV.Gen.HashTypeSHA256 then sha256 else []
+    some (runHtlc s n (unlockHtlc H id (← parseHex pre)) h.ctx)
+  | "htlc", "DenyProxyUnlock", [] => some (runHtlc s n (setProxyUnlock false) h.ctx)
+  | "htlc", "AllowProxyUnlock", [] => some (runHtlc s n (setProxyUnlock true) h.ctx)
   | _, _, _ => none
 
 /-- an unmodelled method (Update, CollectReward, ...): the observed outcome is an input; storage entries are left
@@ -149,6 +193,18 @@ def contractStep (s : KSt) : List String → Option (KSt × String)
     match lookup (owner, id) s.stake.entries with
     | none => some ({ s with names := n }, "none")
     | some e => some ({ s with names := n }, s!"{e.amount} {e.weighted} {e.start} {e.revoke} {e.expiration}")
+  | ["K-htlc", id] =>
+    let (n, id) := s.names.hash id
+    match lookup id s.htlc.entries with
+    | none => some ({ s with names := n }, "none")
+    | some e => some ({ s with names := n },
+        s!"{n.addrName e.timeLocked} {n.addrName e.hashLocked} {n.tokName e.tok} {e.amount} {e.expiration} {e.hashType} {e.keyMax} {showHex e.hashLock}")
+  | ["K-proxy", a] =>
+    let (n, a) := s.names.addr a
+    match lookup a s.htlc.proxy with
+    | none => some ({ s with names := n }, "none")
+    | some v => some ({ s with names := n }, showBool v)
+  | ["K-digest", "htlc"] => some (s, s!"{s.htlc.entries.length} {s.htlc.proxy.length}")
   | ["K-digest", "plasma"] =>
     some (s, s!"{s.plasma.fusions.length} {s.plasma.owed} {s.plasma.fused.length} {total id s.plasma.fused}")
   | ["K-digest", "stake"] => some (s, s!"{s.stake.entries.length} {s.stake.owed}")
